@@ -98,6 +98,23 @@ def run(res, tier="quick", seed=0, widen=False):
                         m2 = rng.choice([None, ("b", [rng.random() < 0.6 for _ in range(n)])])
                         cases.append((kernel, dt, codes, vals, ngroups, m2, 1, comp))
                         multi_used += 1
+    # sentinel collisions: partial sums of plain int64 values that hit exactly the int64 minimum (the in-band null
+    # marker of timestamps) inside a thread block, a value chunk or the whole pass: integers hold no nulls
+    NEG = -2**62
+    for _ in range(150 if tier == "quick" else 1500):
+        n = rng.randint(3, 6)
+        codes = tuple(rng.choice([0, 0, 1, -1]) for _ in range(n))
+        vals = [rng.choice([1, 5, 3, 7]) for _ in range(n)]
+        i, j = rng.sample(range(n), 2)
+        vals[i] = vals[j] = NEG
+        kernel = rng.choice(["sum", "sum", "mean"]) if "mean" in KERNELS else "sum"
+        r = rng.random()
+        if r < 0.4:
+            cases.append((kernel, "i8", codes, vals, 3, None, 1, None))
+        elif r < 0.7:
+            cases.append((kernel, "i8", codes, vals, 3, None, rng.choice([2, 3]), None))
+        else:
+            cases.append((kernel, "i8", codes, vals, 3, None, 1, rng.choice(compositions(n, 3))))
     # malformed stream: misaligned lengths, out-of-bounds positions
     for _ in range(200 if tier == "quick" else 1000):
         n = rng.randint(1, 4)
